@@ -96,6 +96,25 @@ func buildMeta(format string, mut func(*nfpm.Info)) (PkgMeta, *Decoded, error) {
 	return metaOf(dec), dec, nil
 }
 
+// buildMetaNamed is buildMeta the way `nfpm package` with a directory target does it: the conventional file name is
+// asked of the very Info that is packaged next.
+func buildMetaNamed(format string, mut func(*nfpm.Info)) (PkgMeta, error) {
+	s := &PkgSpec{Umask: 0o022, MTime: 1700000000, Mutate: mut}
+	info := s.Info()
+	if p, err := nfpm.Get(format); err == nil {
+		_ = p.ConventionalFileName(info)
+	}
+	data, err := BuildPkg(format, info)
+	if err != nil {
+		return PkgMeta{}, err
+	}
+	dec, err := DecodePkg(format, data)
+	if err != nil {
+		return PkgMeta{}, err
+	}
+	return metaOf(dec), nil
+}
+
 type verCase struct {
 	Version, Schema, Pre, Meta, Release, Epoch string
 }
@@ -271,7 +290,7 @@ func runC14(c *Ctx) error {
 	// --- family verbatim: schema none / unparsable versions inside real packages
 	famV := c.Rep.Family("verbatim-in-package", "exhaustive: versions that are used verbatim (schema none with semver-shaped and date-shaped strings, and strings that do not parse) x {no release, release 2} x deb, ipk, rpm: the version stated inside the real package must be the configured string, character for character (deb/ipk: between the optional epoch and the optional -release; rpm: the VERSION tag); non-trivial = always")
 	famV.Exhaustive = true
-	for _, vs := range []struct{ version, schema string }{{"2024-01-15", "none"}, {"1.2.3-rc1+b7", "none"}, {"1.2.3.4-hotfix", ""}, {"v1_x", ""}, {"20240115", "none"}, {"1.0-2-3", "none"}} {
+	for _, vs := range []struct{ version, schema string }{{"2024-01-15", "none"}, {"1.2.3-rc1+b7", "none"}, {"1.2.3.4-hotfix", ""}, {"v1_x", ""}, {"20240115", "none"}, {"1.0-2-3", "none"}, {"2:1.5.0", ""}, {"2:1.5.0", "none"}, {"007:1", ""}} {
 		for _, rel := range []string{"", "2"} {
 			for _, f := range []string{"deb", "ipk", "rpm"} {
 				vs, rel, f := vs, rel, f
@@ -291,6 +310,10 @@ func runC14(c *Ctx) error {
 				got := pm.Version
 				if f != "rpm" && rel != "" {
 					want += "-" + rel
+				}
+				if f == "rpm" && pm.Epoch != "" && pm.Epoch != "0" {
+					c.Rep.Find(report.Finding{Property: "C14", Family: "verbatim-in-package", Shape: "rpm:epoch-out-of-a-verbatim-version",
+						What: fmt.Sprintf("no epoch is configured and the version %q is to be used verbatim; the rpm states epoch %q", vs.version, pm.Epoch), Input: in})
 				}
 				if got != want {
 					c.Rep.Find(report.Finding{Property: "C14", Family: "verbatim-in-package", Shape: f + ":verbatim-version-altered",
@@ -359,6 +382,14 @@ func runC14(c *Ctx) error {
 			}
 			if a != got {
 				c.Rep.Disagree(report.Disagreement{Family: "ordering", What: "version field inside the " + f + " package vs model rendering", Input: in, Model: a, Impl: got})
+			}
+			// no component duplicated: asking for the conventional file name first (the command's order for a directory
+			// target) leaves the version the package states unchanged
+			if pmN, nerr := buildMetaNamed(f, func(i2 *nfpm.Info) {
+				i2.Version, i2.Prerelease, i2.VersionMetadata, i2.Release, i2.Epoch = viPre.Version, viPre.Prerelease, viPre.Metadata, rel, epoch
+			}); nerr == nil && (pmN.Version != pmPre.Version || pmN.Release != pmPre.Release || pmN.Epoch != pmPre.Epoch) {
+				c.Rep.Find(report.Finding{Property: "C14", Family: "ordering", Shape: f + ":version-differs-when-the-file-name-is-asked-first",
+					What: fmt.Sprintf("the %s package states version %q release %q epoch %q; with the conventional file name asked of the same settings first: version %q release %q epoch %q (a component is lost or duplicated)", f, pmPre.Version, pmPre.Release, pmPre.Epoch, pmN.Version, pmN.Release, pmN.Epoch), Input: in})
 			}
 			// no component lost or altered: the build metadata is carried as written
 			if meta != "" && (f == "deb" || f == "ipk" || f == "rpm") && !strings.Contains(pmPre.Version, "+"+meta) {
